@@ -84,7 +84,8 @@ Fixpoint is_prefix (a b : list Z) : bool :=
   end.
 
 Definition src : follow_src :=
-  mkFsrc err_chan_is_made failed_sync_is_reported retry_branch_continues hash_pinned_before_store.
+  mkFsrc err_chan_is_made failed_sync_is_reported retry_branch_continues hash_pinned_before_store
+         follow_stack_has_append_store.
 
 Inductive scase :=
 (* SyncManager.Sync(upTo) on stack [sk] over a raw store holding [base]; [peers] in tried order *)
